@@ -65,6 +65,7 @@ type lockRec struct {
 	hasStart bool
 	reg      *definition.RegisterParam
 	ptype    uint8
+	unlockedAt int64 // liquidity stake: frontier time of the administrator's UnlockLiquidityStakeEntries that released it early (0 = never)
 }
 
 type kParams struct {
@@ -128,6 +129,8 @@ type contractRun struct {
 	sentinels []*definition.SentinelInfo
 	lstakes   []*definition.LiquidityStakeEntry
 	lastTuples string
+	liqAdmin   types.Address // liquidity: LiquidityInfo.Administrator as of the last momentum
+	adminPhase string        // lock-vs-administration scenario: the administrative change made last (hit counters only)
 	unwraps   []*definition.UnwrapTokenRequest
 	runBal    map[types.Address]map[types.ZenonTokenStandard]*big.Int // balance of a contract just before the receive being monitored (last momentum's balance + the blocks since)
 	revoked   map[string]bool // bridge: unwrap requests revoked by the administrator (from confirmed receives)
@@ -483,6 +486,9 @@ func (r *contractRun) onMomentum(dm *nom.DetailedMomentum) {
 		d := decodeCall(b.Address, send.Data)
 		if b.Address == types.BridgeContract {
 			r.decodeBridge(d, send, ack.Height)
+		}
+		if b.Address == types.LiquidityContract {
+			r.decodeLiquidityAdmin(d, send)
 		}
 		outcome := fmt.Sprintf("%s %d%s", status, len(b.DescendantBlocks), sb.String())
 		head := fmt.Sprintf("%s %s %s %s %s %s %d %d", cname(b.Address), d.method, addrName(send.Address), tokName(send.TokenStandard), amt(send.Amount), h8z(send.Hash),
@@ -946,8 +952,16 @@ func (r *contractRun) monitorReceive(b, send *nom.AccountBlock, d *decoded, stat
 					r.c.Hit("refusal-liquidity.CancelLiquidityStake-not-owner-or-unknown-id")
 				default:
 					r.c.Hit("refusal-liquidity.CancelLiquidityStake-too-early")
+					if r.adminPhase != "" {
+						r.c.Hit("lock-holds-early-cancel-refused-after-" + r.adminPhase)
+					}
 				}
 			}
+			if ok && lk != nil && lk.unlockedAt != 0 && lk.paidAt == h {
+				r.c.Hit("lstake-released-early-after-administrator-unlock")
+			}
+		default:
+			r.monitorLiquidityAdmin(b, send, d, ok, ackT)
 		}
 	case types.PillarContract, types.SentinelContract:
 		qkey := cname(b.Address) + "/" + addrName(send.Address)
@@ -1471,6 +1485,7 @@ func (r *contractRun) compareState(h uint64) {
 	{
 		st := r.storage(types.LiquidityContract)
 		if info, err := definition.GetLiquidityInfo(st); err == nil && info != nil {
+			r.liqAdmin = info.Administrator
 			var sb strings.Builder
 			for _, tt := range info.TokenTuples {
 				fmt.Fprintf(&sb, " %s %s", tokName(types.ParseZTSPanic(tt.TokenStandard)), amt(tt.MinAmount))
@@ -1955,6 +1970,14 @@ func contractHistory(c *Ctx, id int) {
 			return big.NewInt(1 + int64(c.R.Intn(5))), types.QsrTokenStandard
 		}
 		return zero, types.ZnnTokenStandard
+	}
+
+	// directed scenario of every liquidity history: a lock holds whatever the administrator does between deposit and release
+	if withLiq && c.Args["lockadmin"] != "0" {
+		if !r.lockVsAdministration(histEnv{call: call, advance: advance, now: frontierTime, qsr: qsr}, users) {
+			return
+		}
+		start = n.Height()
 	}
 
 	genPlasma := func() {
@@ -2834,6 +2857,20 @@ func contractHistory(c *Ctx, id int) {
 	}
 
 	genLiquidity := func() {
+		// one call in ten is administrative (single-step actions at random points of the random stakes' lives): halt on / off,
+		// an unlock of a random token by the administrator or by somebody else
+		if c.R.Intn(10) == 0 && !r.liqAdmin.IsZero() && keyOf(r.liqAdmin) != nil {
+			tok := []types.ZenonTokenStandard{types.ZnnTokenStandard, types.QsrTokenStandard}[c.R.Intn(2)]
+			switch c.R.Intn(4) {
+			case 0:
+				call(r.liqAdmin, types.LiquidityContract, types.ZnnTokenStandard, zero, "SetIsHalted", definition.ABILiquidity.PackMethodPanic(definition.SetIsHaltedMethodName, c.R.Intn(2) == 0))
+			case 1:
+				call(r.liqAdmin, types.LiquidityContract, tok, zero, "UnlockLiquidityStakeEntries", definition.ABILiquidity.PackMethodPanic(definition.UnlockLiquidityStakeEntriesMethodName))
+			default:
+				call(pick(users), types.LiquidityContract, tok, zero, "UnlockLiquidityStakeEntries", definition.ABILiquidity.PackMethodPanic(definition.UnlockLiquidityStakeEntriesMethodName))
+			}
+			return
+		}
 		if c.R.Intn(100) < 45 {
 			from := pick(users)
 			tok := types.ZnnTokenStandard
@@ -3020,7 +3057,32 @@ func contractHistory(c *Ctx, id int) {
 			return
 		}
 	}
+	midSporks := !withHtlc && (c.Args["midspork"] == "1" || (c.Args["midspork"] == "" && id%6 == 3))
 	for s := 0; s < steps && !r.failed && int(n.Height()-start) < budget; s++ {
+		if midSporks && s == steps/2 {
+			// a lock holds whatever is activated while it is open: the three sporks are activated in the middle of a history
+			// that began without them, then locks are run to their edges (genEdge: maturity -1 / 0 / +1 by the entitled party)
+			for _, l := range r.locks {
+				if l.paidAt == 0 {
+					c.Hit("lock-open-at-mid-history-spork-activation-" + l.kind)
+				}
+			}
+			for i, sp := range []*types.ImplementedSpork{types.AcceleratorSpork, types.BridgeAndLiquiditySpork, types.HtlcSpork} {
+				if err := n.ActivateSpork(sp, fmt.Sprintf("mid-spork-%d", i)); err != nil {
+					c.Hit("mid-history-spork-activation-not-possible") // the spork address ran out of plasma (its fusion was cancelled by the history)
+					break
+				}
+				c.Hit("history-spork-activated-while-funds-are-locked")
+				if r.failed {
+					return
+				}
+			}
+			for i := 0; i < 4; i++ {
+				if !genEdge() {
+					return
+				}
+			}
+		}
 		x := c.R.Intn(100)
 		rewardOdds := 40
 		if shortEpochs {
